@@ -10,8 +10,9 @@ Reading of the property statement implemented here:
 
 * eligible = root, state in {SUCCESS, ERROR, CANCELLED} minus ignored states;
 * age criterion configured iff older_than is set and >= 1 (the documented
-  minimum); a root is expired iff it is STRICTLY older than older_than
-  minutes ("older than the configured age"; exactly equal is not older);
+  minimum; unset and 0 both mean "no age criterion"); a root is expired iff
+  it is STRICTLY older than older_than minutes ("older than the configured
+  age"; exactly equal is not older);
 * count criterion configured iff max_finished_executions is set and >= 1
   (0 = "this constraint won't be applied"); a root is superfluous iff at
   least N other eligible roots are at least as recent (ties broken in the
@@ -20,10 +21,8 @@ Reading of the property statement implemented here:
   superfluous); every expired root must be gone after the evaluation and at
   most N eligible roots may remain; no eligible root may be kept while a
   strictly newer eligible one was deleted.
-* older_than = 0 is below the documented minimum: the model is lenient and
-  accepts both readings (criterion not applied / threshold = now): deleting
-  an eligible root last updated strictly before the evaluation instant is
-  allowed, not required.
+With distinct ages this makes the set of deleted roots unique ("deleted set
+= reference set"); with tied ages any tie-break is accepted.
 """
 
 STATES = ('IDLE', 'RUNNING', 'PAUSED', 'SUCCESS', 'ERROR', 'CANCELLED')
@@ -61,11 +60,10 @@ def verdicts(roots, st, deleted):
                         'root execution in an ignored state deleted: %s' % d))
             continue
         by_age = age_on and r['age'] > ot * 60
-        lenient0 = (ot == 0 and r['age'] > 0)
         at_least_as_recent = sum(1 for e in elig if e['id'] != r['id']
                                  and e['age'] <= r['age'])
         by_cnt = cnt_on and at_least_as_recent >= mf
-        if not (by_age or by_cnt or lenient0):
+        if not (by_age or by_cnt):
             why = []
             if age_on:
                 why.append('not older than older_than=%d min' % ot)
@@ -120,8 +118,6 @@ def expectation(roots, st):
     for r in elig:
         if age_on and r['age'] > ot * 60:
             must.add(r['id'])
-        if ot == 0 and r['age'] > 0:
-            may.add(r['id'])
     if cnt_on:
         for r in elig:
             strictly_newer = sum(1 for e in elig if e['age'] < r['age'])
